@@ -254,8 +254,11 @@ def run_docenc(ctx):
     for _ in range(150 if ctx.tier == "quick" else 1500):
         n = rng.randrange(0, 6)
         ds = [rng.choice(docs_nl + docs_dec) for _ in range(n)]
-        b64 = b"".join(base64.b64encode(d) + b"\n" for d in ds)
         nul = rng.randrange(2)
+        if not nul and ds and rng.random() < 0.5:
+            # with the default separator a document may contain NUL bytes (only -0 reserves them): they are data like any other byte
+            ds[rng.randrange(len(ds))] = rng.choice([b"abc\x00def\n", b"\x00lead\n", b"x\x00", b"\x00", b"u\x00t\x00f\x001\x006\x00\n", b"two\x00\x00nuls\nand a line\n"])
+        b64 = b"".join(base64.b64encode(d) + b"\n" for d in ds)
         # index arguments as a user may type them: any order, repeated, overlapping ranges (M-N expands to M..N)
         ind = rng.choice(["-", "1", "2", "3", "1,2", "2,4", "1,3,4", "5", "2,1", "3,1", "2,2", "1,2,3,2,3,4", "2,3,3", "4,2,3",
                           "1,2,3,3,4,5", "2,2,3", "1,1,2,4", "1,2,2,4,5", "3,3,4"])      # ascending, with a repeat that is followed by more
